@@ -171,6 +171,18 @@ def negative_controls():
     return tr.events, ctrl
 
 
+# Rejections that do NOT show non-linearity by themselves: the acceptor's bookkeeping is conservative there.  An operator it does
+# not know may be linear; a partial overwrite of / an addition to a buffer it cannot prove to be zero (torch.empty filled piece by
+# piece, an accumulator) is at worst AFFINE - and then T(0) != 0, which the numeric probes (numeric_maps) test directly on the same
+# maps.  Definite rejections stay violations: a non-linear operator on input-dependent data, a product or quotient of two
+# input-dependent tensors, an input-dependent index, an input-dependent scalar read back into Python.
+INCONCLUSIVE = {"unknown": "the operator is not in the vocabulary of harness/dispatch.py",
+                "copy": "a partial overwrite of a buffer not known to be zero (e.g. torch.empty filled piece by piece)",
+                "index_add": "an accumulation into a buffer not known to be zero",
+                "addsub": "a sum with a constant not known to be zero",
+                "pad_value": "padding with a value not known to be zero"}
+
+
 def validate_executions(rep, pid, tier):
     events, execs, opnames = record_executions(rep, tier)
     rej = tracecheck.validate(rep, "Trace_LinearProg", events, {}, "Trace_LinearProg", batch=4000)
@@ -182,13 +194,13 @@ def validate_executions(rep, pid, tier):
     for name, a, b in execs:
         r = [k for k in range(a, b) if k in rejset]
         rep.nontriv(("exec", name))
-        if r and events[r[0]]["cat"] == "unknown":
+        if r and events[r[0]]["cat"] in INCONCLUSIVE:
             # the FIRST rejection is an operator the vocabulary does not know: the structural argument is inconclusive for this
             # execution (an unlisted operator may well be linear) - not a verdict; the numeric probes below (superposition and
             # homogeneity over 40 orders of magnitude, T(0) = 0, slice independence) decide for it
             inconclusive.append(name)
-            rep.drift.append("linearity acceptor inconclusive for '%s': operator %s is not in the vocabulary of harness/dispatch.py"
-                             % (name, events[r[0]]["op"]))
+            rep.drift.append("linearity acceptor inconclusive for '%s': event %s (category %s) - %s" % (
+                name, events[r[0]]["op"], events[r[0]]["cat"], INCONCLUSIVE[events[r[0]]["cat"]]))
         elif r:
             e = events[r[0]]
             rep.violation("execution '%s' is not a straight-line linear program: event %d (%s, category %s) is rejected by "
@@ -314,3 +326,90 @@ def superposition(rep, pid, tier):
             rep.violation("%s violates %s" % (z["name"], bad), {"api": z["name"], "check": "superposition"})
     rep.validated(n)
     rep.count("superposition_probes", n)
+
+
+
+def _pyramid_and_inverse(z, x):
+    """the structured (yl, yh) output of the forward entry z on x, and the matching inverse module (or None)"""
+    if z.get("inv") is None:
+        return None, None
+    name = z["name"]
+    args = name[name.index("(") + 1:-1]
+    if name.startswith("DWT1DForward"):
+        wave, mode, J = args.split(",")[0], args.split(",")[1], int(args.split("J=")[1])
+        yl, yh = pw.DWT1DForward(J=J, wave=wave, mode=mode)(x)
+    elif name.startswith("DWTForward"):
+        wave, mode, J = args.split(",")[0], args.split(",")[1], int(args.split("J=")[1])
+        yl, yh = pw.DWTForward(J=J, wave=wave, mode=mode)(x)
+    else:
+        biort, qshift = args.split(",")[0], args.split(",")[1]
+        J = int(args.split("J=")[1].split(",")[0])
+        kw = eval(args[args.index("{"):])
+        yl, yh = pw.DTCWTForward(biort=biort, qshift=qshift, J=J, **kw)(x)
+    return (yl, list(yh)), z["inv"]()
+
+
+def _probe_linear(fn, shapes, rng):
+    """fn: list of tensors -> list of tensors.  Returns None or a description of the failed linearity clause."""
+    mk = lambda: [torch.tensor(rng.standard_normal(s)) for s in shapes]   # noqa
+    x, y = mk(), mk()
+    a, b = float(rng.standard_normal()), float(rng.standard_normal()) * 1e3
+    fx, fy = fn(x), fn(y)
+    lhs = fn([a * p + b * q for p, q in zip(x, y)])
+    for l, p, q in zip(lhs, fx, fy):
+        scale = float((a * p).abs().max() + (b * q).abs().max()) + 1e-300
+        if not float((l - (a * p + b * q)).abs().max()) <= 1e-11 * scale:
+            return "superposition T(ax+by) = aT(x)+bT(y)"
+    for o in fn([torch.zeros(s) for s in shapes]):
+        if float(o.abs().max()) != 0.0:
+            return "T(0) = 0 (max |T(0)| = %.3g)" % float(o.abs().max())
+    for s_ in (1e-20, 1e-8, 1e8, 1e20):
+        for l, p in zip(fn([s_ * t for t in x]), fx):
+            ref = float(p.abs().max()) + 1e-300
+            if not float((l / s_ - p).abs().max()) <= 1e-9 * ref:
+                return "homogeneity T(s x) = s T(x) for s = %g (relative deviation %.3g)" % (s_, float((l / s_ - p).abs().max()) / ref)
+    return None
+
+
+def numeric_maps(rep, pid, tier):
+    """Numeric linearity of the four maps the acceptor looks at - forward, inverse and the two back-propagation maps (cotangent ->
+    gradient) - for every transform of the zoo: superposition, T(0) = 0 exactly, homogeneity over 40 orders of magnitude.  This is
+    what decides where the structural argument is inconclusive, and it runs for all of them."""
+    dwtlib.f64()
+    rng = np.random.default_rng(23500 + seed())
+    n = 0
+    for z in transform_zoo(tier):
+        f = z["make"]()
+        shape = z["shape"](2, 2)
+        x0 = torch.tensor(rng.standard_normal(shape))
+        maps = []
+        outs0 = f(x0)
+        oshapes = [tuple(o.shape) for o in outs0]
+
+        def vjp_fwd(cots):
+            xg = x0.clone().requires_grad_(True)
+            g, = torch.autograd.grad(f(xg), xg, cots, allow_unused=True)
+            return [g]
+        maps.append(("backward of the forward transform (cotangent -> gradient)", vjp_fwd, oshapes))
+        pyr, inv = _pyramid_and_inverse(z, x0)
+        if inv is not None:
+            pshapes = [tuple(pyr[0].shape)] + [tuple(h.shape) for h in pyr[1]]
+            inv_fn = lambda ts, inv=inv: [inv((ts[0], list(ts[1:])))]    # noqa
+            maps.append(("inverse transform", inv_fn, pshapes))
+            y0 = inv_fn([torch.tensor(rng.standard_normal(s_)) for s_ in pshapes])[0]
+
+            def vjp_inv(cots, inv=inv, pshapes=pshapes):
+                leaves = [torch.zeros(s_).requires_grad_(True) for s_ in pshapes]
+                out = inv((leaves[0], leaves[1:]))
+                return [g for g in torch.autograd.grad(out, leaves, cots[0], allow_unused=True) if g is not None]
+            maps.append(("backward of the inverse transform (cotangent -> gradients)", vjp_inv, [tuple(y0.shape)]))
+        for label, fn, shapes in maps:
+            rep.validated()
+            n += 1
+            try:
+                bad = _probe_linear(fn, shapes, rng)
+            except Exception as e:   # noqa   (a backward that raises is C05 / C06's business)
+                continue
+            if bad:
+                rep.violation("%s: the %s violates %s" % (z["name"], label, bad), {"api": z["name"], "check": "numeric_maps", "map": label})
+    rep.count("numeric_map_probes", n)
